@@ -293,10 +293,15 @@ func (p *pkg) callsWithConds(fn, recv, sel string) []string {
 				return false
 			}
 			if call, ok := m.(*ast.CallExpr); ok {
-				name := ""
+				name, prefix := "", ""
 				switch f := call.Fun.(type) {
 				case *ast.SelectorExpr:
 					name = f.Sel.Name
+					// "os.*": every call into that package, recorded with the function's name
+					if id, ok := f.X.(*ast.Ident); ok && strings.HasSuffix(sel, ".*") && id.Name == strings.TrimSuffix(sel, ".*") {
+						prefix = id.Name + "." + name + ": "
+						name = sel
+					}
 				case *ast.Ident:
 					name = f.Name
 				}
@@ -305,7 +310,7 @@ func (p *pkg) callsWithConds(fn, recv, sel string) []string {
 					for _, a := range call.Args {
 						as = append(as, txt(a))
 					}
-					out = append(out, strings.Join(as, ", ")+" | "+strings.Join(conds, " && "))
+					out = append(out, prefix+strings.Join(as, ", ")+" | "+strings.Join(conds, " && "))
 				}
 			}
 			return true
@@ -998,6 +1003,14 @@ func main() {
 		facts["uploadExclude"] = map[string]interface{}{"appended": appended, "conds": conds, "scanArgs": scanArgs}
 		return "def uploadExcludeAppended : List Bytes := " + bytesList(appended) + "\ndef uploadExcludeConds : List Bytes := " + bytesList(conds) +
 			"\ndef uploadScanArgs : List Bytes := " + bytesList(scanArgs)
+	})
+	// ---- tq/basic_download.go (C02, C09): what the basic download adapter does to the file system around a transfer:
+	// every call into package os, and every rename, with the conditions under which it happens
+	emit("basicDownloadFsCalls", func() string {
+		tqp := safeLoad(filepath.Join(repo, "tq"))
+		l := append(tqp.callsWithConds("DoTransfer", "basicDownloadAdapter", "os.*"), tqp.callsWithConds("DoTransfer", "basicDownloadAdapter", "RobustRename")...)
+		facts["basicDownloadFsCalls"] = l
+		return "def basicDownloadFsCalls : List Bytes := " + bytesList(l)
 	})
 	// ---- commands/command_unlock.go (C16): the guard of `unlock --id` finds the lock's path in the local cache
 	// and, failing that, asks the server
